@@ -78,7 +78,13 @@ Record sender := mkS { s_pc : spc; s_script : list nat }.
 Inductive lop :=
 | OpRun (dflt : bool)   (* uv_run(UV_RUN_DEFAULT) if dflt else uv_run(UV_RUN_ONCE) *)
 | OpClose (h : nat)     (* uv_close(h) between two runs *)
-| OpNowait.             (* uv_run(UV_RUN_NOWAIT): one iteration with timeout 0 *)
+| OpNowait              (* uv_run(UV_RUN_NOWAIT): one iteration with timeout 0 *)
+| OpStop.               (* uv_stop() between two runs *)
+
+(* what a callback does, in order *)
+Inductive cbop :=
+| CbClose (h : nat)     (* uv_close(h) *)
+| CbStop.               (* uv_stop(loop) *)
 
 Inductive lpc :=
 | LTop                  (* between two API calls of the loop thread's script *)
@@ -95,36 +101,39 @@ Record loop := mkL {
   l_pc : lpc;
   l_script : list lop;
   l_queue : list nat;     (* the local [queue] of uv__async_io *)
-  l_cbops : list nat;     (* handles the running callback still closes *)
+  l_cbops : list cbop;    (* what the running callback still does *)
   l_incb : bool;          (* uv_close in progress was called from a callback *)
   l_mode : bool;          (* uv_run mode of the run in progress: true = DEFAULT *)
   l_cbk : nat;            (* callbacks run so far (index into l_beh) *)
   l_closing : list nat;   (* loop->closing_handles (a stack) *)
   l_active : Z;           (* loop->active_handles *)
   l_closed : list nat;    (* ghost: handles whose close_cb has run *)
-  l_beh : nat -> list nat (* k-th callback closes these handles *)
+  l_stop : bool;          (* loop->stop_flag *)
+  l_beh : nat -> list cbop (* what the k-th callback does *)
 }.
 
 Definition set_pc (p : lpc) (l : loop) : loop :=
-  mkL p (l_script l) (l_queue l) (l_cbops l) (l_incb l) (l_mode l) (l_cbk l) (l_closing l) (l_active l) (l_closed l) (l_beh l).
+  mkL p (l_script l) (l_queue l) (l_cbops l) (l_incb l) (l_mode l) (l_cbk l) (l_closing l) (l_active l) (l_closed l) (l_stop l) (l_beh l).
 Definition set_script (sc : list lop) (l : loop) : loop :=
-  mkL (l_pc l) sc (l_queue l) (l_cbops l) (l_incb l) (l_mode l) (l_cbk l) (l_closing l) (l_active l) (l_closed l) (l_beh l).
+  mkL (l_pc l) sc (l_queue l) (l_cbops l) (l_incb l) (l_mode l) (l_cbk l) (l_closing l) (l_active l) (l_closed l) (l_stop l) (l_beh l).
 Definition set_queue (q : list nat) (l : loop) : loop :=
-  mkL (l_pc l) (l_script l) q (l_cbops l) (l_incb l) (l_mode l) (l_cbk l) (l_closing l) (l_active l) (l_closed l) (l_beh l).
-Definition set_cbops (c : list nat) (l : loop) : loop :=
-  mkL (l_pc l) (l_script l) (l_queue l) c (l_incb l) (l_mode l) (l_cbk l) (l_closing l) (l_active l) (l_closed l) (l_beh l).
+  mkL (l_pc l) (l_script l) q (l_cbops l) (l_incb l) (l_mode l) (l_cbk l) (l_closing l) (l_active l) (l_closed l) (l_stop l) (l_beh l).
+Definition set_stop (b : bool) (l : loop) : loop :=
+  mkL (l_pc l) (l_script l) (l_queue l) (l_cbops l) (l_incb l) (l_mode l) (l_cbk l) (l_closing l) (l_active l) (l_closed l) b (l_beh l).
+Definition set_cbops (c : list cbop) (l : loop) : loop :=
+  mkL (l_pc l) (l_script l) (l_queue l) c (l_incb l) (l_mode l) (l_cbk l) (l_closing l) (l_active l) (l_closed l) (l_stop l) (l_beh l).
 Definition set_incb (b : bool) (l : loop) : loop :=
-  mkL (l_pc l) (l_script l) (l_queue l) (l_cbops l) b (l_mode l) (l_cbk l) (l_closing l) (l_active l) (l_closed l) (l_beh l).
+  mkL (l_pc l) (l_script l) (l_queue l) (l_cbops l) b (l_mode l) (l_cbk l) (l_closing l) (l_active l) (l_closed l) (l_stop l) (l_beh l).
 Definition set_mode (b : bool) (l : loop) : loop :=
-  mkL (l_pc l) (l_script l) (l_queue l) (l_cbops l) (l_incb l) b (l_cbk l) (l_closing l) (l_active l) (l_closed l) (l_beh l).
+  mkL (l_pc l) (l_script l) (l_queue l) (l_cbops l) (l_incb l) b (l_cbk l) (l_closing l) (l_active l) (l_closed l) (l_stop l) (l_beh l).
 Definition set_cbk (k : nat) (l : loop) : loop :=
-  mkL (l_pc l) (l_script l) (l_queue l) (l_cbops l) (l_incb l) (l_mode l) k (l_closing l) (l_active l) (l_closed l) (l_beh l).
+  mkL (l_pc l) (l_script l) (l_queue l) (l_cbops l) (l_incb l) (l_mode l) k (l_closing l) (l_active l) (l_closed l) (l_stop l) (l_beh l).
 Definition set_active (a : Z) (l : loop) : loop :=
-  mkL (l_pc l) (l_script l) (l_queue l) (l_cbops l) (l_incb l) (l_mode l) (l_cbk l) (l_closing l) a (l_closed l) (l_beh l).
+  mkL (l_pc l) (l_script l) (l_queue l) (l_cbops l) (l_incb l) (l_mode l) (l_cbk l) (l_closing l) a (l_closed l) (l_stop l) (l_beh l).
 Definition set_closed (c : list nat) (l : loop) : loop :=
-  mkL (l_pc l) (l_script l) (l_queue l) (l_cbops l) (l_incb l) (l_mode l) (l_cbk l) (l_closing l) (l_active l) c (l_beh l).
+  mkL (l_pc l) (l_script l) (l_queue l) (l_cbops l) (l_incb l) (l_mode l) (l_cbk l) (l_closing l) (l_active l) c (l_stop l) (l_beh l).
 Definition set_closing (c : list nat) (l : loop) : loop :=
-  mkL (l_pc l) (l_script l) (l_queue l) (l_cbops l) (l_incb l) (l_mode l) (l_cbk l) c (l_active l) (l_closed l) (l_beh l).
+  mkL (l_pc l) (l_script l) (l_queue l) (l_cbops l) (l_incb l) (l_mode l) (l_cbk l) c (l_active l) (l_closed l) (l_stop l) (l_beh l).
 
 (* ---------------------------------------------------------------------- *)
 (* Events (what the harness can see happen inside a step)                   *)
@@ -220,7 +229,8 @@ Definition poll_point (s : state) : state :=
 (* end of uv__io_poll: uv__run_closing_handles, then the loop condition of uv_run *)
 Definition finish_iter (s : state) : state :=
   let s1 := run_closing s in
-  if l_mode (lp s1) && alive s1 then poll_point s1 else lpc_to s1 LTop.
+  if l_mode (lp s1) && alive s1 && negb (l_stop (lp s1)) then poll_point s1
+  else lpc_to (with_lp s1 (set_stop false (lp s1))) LTop.   (* uv_run returns; stop_flag cleared *)
 
 (* [drain_first] = true is the code as it is; false is the (wrong) variant that scans
    the handles first and drains the eventfd afterwards. *)
@@ -262,12 +272,16 @@ Definition loop_step (drain_first : bool) (s : state) : option state :=
     | [] => Some (lpc_to s LDone)
     | OpClose h :: rest =>
       Some (close_begin (with_lp s (set_script rest l)) h false)
-    | OpRun d :: rest =>
+    | OpRun d :: rest =>                            (* while (r != 0 && stop_flag == 0) *)
       let s1 := with_lp s (set_mode d (set_script rest l)) in
-      if alive s1 then Some (poll_point s1) else Some s1
+      if alive s1 && negb (l_stop l) then Some (poll_point s1)
+      else Some (with_lp s1 (set_stop false (lp s1)))
     | OpNowait :: rest =>
       let s1 := with_lp s (set_mode false (set_script rest l)) in
-      if alive s1 then Some (lpc_to s1 (LPoll true)) else Some s1
+      if alive s1 && negb (l_stop l) then Some (lpc_to s1 (LPoll true))
+      else Some (with_lp s1 (set_stop false (lp s1)))
+    | OpStop :: rest =>
+      Some (with_lp s (set_stop true (set_script rest l)))
     end
   | LPoll nb =>
     if efd s >? 0 then
@@ -293,8 +307,10 @@ Definition loop_step (drain_first : bool) (s : state) : option state :=
     Some (with_lp s1 (set_pc LInCb (set_cbops (l_beh l1 (l_cbk l1)) (set_cbk (S (l_cbk l1)) l1))))
   | LInCb =>
     match l_cbops l with
-    | [] => Some (scan_next drain_first s)          (* callback returns *)
-    | c :: rest => Some (close_begin (with_lp s (set_cbops rest l)) c true)
+    | [] => Some (scan_next drain_first s)          (* callback returns; uv__async_io never looks
+                                                       at stop_flag: the pass goes on *)
+    | CbClose c :: rest => Some (close_begin (with_lp s (set_cbops rest l)) c true)
+    | CbStop :: rest => Some (with_lp s (set_stop true (set_cbops rest l)))
     end
   | LSpin0 h => Some (spin_step s h)
   | LSpin h => Some (spin_step s h)
@@ -322,14 +338,35 @@ Fixpoint run_gen (df : bool) (s : state) (sched : list nat) : option state :=
   end.
 Definition run := run_gen true.
 
+(* The (wrong) variant in which uv__async_io, when a callback has called uv_stop(), splices
+   the handles it has not examined yet back onto loop->async_handles and leaves the pass
+   ("they keep their pending flag") - although the eventfd is already drained. *)
+Definition step_stopbreak (s : state) (tid : nat) : option state :=
+  match tid, l_pc (lp s), l_cbops (lp s) with
+  | O, LInCb, [] =>
+    if l_stop (lp s)
+    then Some (finish_iter (with_lst (with_lp s (set_queue [] (lp s))) (lst s ++ l_queue (lp s))))
+    else step s tid
+  | _, _, _ => step s tid
+  end.
+
+Fixpoint run_stopbreak (s : state) (sched : list nat) : option state :=
+  match sched with
+  | [] => Some s
+  | t :: r => match step_stopbreak s t with
+              | Some s' => run_stopbreak s' r
+              | None => None
+              end
+  end.
+
 (* Initial state: n handles (numbers 0..n-1) initialised on a fresh loop, eventfd counter
    e0, the scripts of the loop thread and of the senders, the behaviour of the callbacks.
    Handle number n is loop->wq_async, the internal handle uv_loop_init puts first into
    loop->async_handles; it is unreferenced, so loop->active_handles does not count it. *)
-Definition init (n : nat) (e0 : Z) (lscript : list lop) (beh : nat -> list nat)
+Definition init (n : nat) (e0 : Z) (lscript : list lop) (beh : nat -> list cbop)
                 (scripts : list (list nat)) : state :=
   mkSt (hinit (S n)) (map (mkS SIdle) scripts)
-       (mkL LTop lscript [] [] false false O [] (Z.of_nat n) [] beh)
+       (mkL LTop lscript [] [] false false O [] (Z.of_nat n) [] false beh)
        (n :: seq 0 n) e0 [].
 
 (* ---------------------------------------------------------------------- *)
@@ -355,12 +392,12 @@ Definition quiescent (s : state) : bool :=
 Definition fork_clear (x : handle) : handle := mkH false 0 (hst x) (unl x) 0 0 0 0.
 Definition fork_keep (x : handle) : handle := mkH (pending x) (busy x) (hst x) (unl x) 0 0 0 0.
 
-Definition async_fork (s : state) (lscript : list lop) (beh : nat -> list nat)
+Definition async_fork (s : state) (lscript : list lop) (beh : nat -> list cbop)
                       (scripts : list (list nat)) : state :=
   mkSt (fun k => if existsb (Nat.eqb k) (lst s) then fork_clear (hs s k) else fork_keep (hs s k))
        (map (mkS SIdle) scripts)
        (mkL LTop lscript [] [] false false O (l_closing (lp s)) (l_active (lp s))
-            (l_closed (lp s)) beh)
+            (l_closed (lp s)) (l_stop (lp s)) beh)
        (lst s) 0 [].
 
 (* Parent and child side by side.  Every process has a wake-up channel (the open file
@@ -395,7 +432,7 @@ Fixpoint sys_run (y : sys) (sched : list (bool * nat)) : option sys :=
 (* fork + uv_loop_fork in the child.  [fresh] = true is the code as it is: the child's
    channel is a new open file.  [fresh] = false is the (wrong) variant in which the child
    keeps the parent's eventfd. *)
-Definition fork_sys (fresh : bool) (s : state) (lscript : list lop) (beh : nat -> list nat)
+Definition fork_sys (fresh : bool) (s : state) (lscript : list lop) (beh : nat -> list cbop)
                     (scripts : list (list nat)) : sys :=
   mkSys s (async_fork s lscript beh scripts) O (if fresh then 1%nat else O)
         (fun k => if Nat.eqb k O then efd s else 0).
